@@ -168,11 +168,17 @@ func (w *World) oracles() {
 	}
 	switch w.prop {
 	case "C01":
-		w.oracleConservation("C01", false)
+		// after an injected write error the queue could not record its
+		// progress: repeating work is the legitimate outcome then (at least
+		// once), losing a recipient never is
+		w.oracleConservation("C01", s.Stats()["fault_fs_write"] > 0)
 	case "C02":
 		w.oracleCrash()
 	case "C10":
 		w.oracleBytes()
+		if len(s.Violations()) == 0 {
+			w.oraclePending()
+		}
 	case "C12":
 		w.oracleSched()
 	case "C18":
@@ -298,7 +304,18 @@ func (w *World) oracleConservation(pfx string, atLeastOnce bool) {
 			}
 		}
 	}
-	if left := w.fs.Names(spool); len(left) > 0 && len(s.Violations()) == 0 {
+	left := w.fs.Names(spool)
+	if atLeastOnce {
+		// the debris of the failed write itself
+		var keep []string
+		for _, n := range left {
+			if !strings.HasSuffix(n, ".meta.new") {
+				keep = append(keep, n)
+			}
+		}
+		left = keep
+	}
+	if len(left) > 0 && len(s.Violations()) == 0 {
 		s.Violate(key("spool-leftover"), "spool not empty at quiescence: %v", left)
 	}
 }
@@ -529,6 +546,36 @@ func (w *World) oracleBytes() {
 		}
 		if !bytes.Equal(tx.Header, m.HdrBytes) {
 			s.Violate("C10/header-bytes/"+when, "%s tx%d: header differs (got %d bytes, accepted %d bytes; first difference at %d)", m.ID, tx.N, len(tx.Header), len(m.HdrBytes), firstDiff(tx.Header, m.HdrBytes))
+		}
+	}
+}
+
+// oraclePending (C10, runs without crash or injected disk error): "the
+// recipients still pending" - a later attempt presents no recipient that an
+// earlier attempt delivered or left with permanent failures only.
+func (w *World) oraclePending() {
+	s := w.s
+	if w.crashes > 0 || s.Stats()["fault_fs_write"] > 0 {
+		return
+	}
+	for _, m := range w.sc.Msgs {
+		if !m.acked {
+			continue
+		}
+		done := map[string]int{}
+		for _, tx := range w.txsOf(m) {
+			for _, r := range m.Rcpts {
+				a := attempt(tx, r)
+				if a.presented && done[r] != 0 {
+					s.Violate("C10/envelope/recipient/not-pending", "%s tx%d presents %s, which was settled by tx%d", m.ID, tx.N, r, done[r])
+				}
+			}
+			for _, r := range m.Rcpts {
+				a := attempt(tx, r)
+				if done[r] == 0 && (a.delivered || (len(a.set) > 0 && !anyRetriable(a.set))) {
+					done[r] = tx.N
+				}
+			}
 		}
 	}
 }
